@@ -26,7 +26,7 @@ pub enum Call {
     Unsew2(u32),
     WriteVertex(u32, f64, f64),
     RemoveVertex(u32),
-    WriteAttr(u32, u32, u32),
+    WriteAttr(u32, u32, u64),
     RemoveAttr(u32, u32),
     RemoveDartTx(u32),
 }
@@ -41,6 +41,130 @@ pub enum Op {
     Block(Option<u64>, Vec<Call>),
     Obs(bool),
     Query,
+    Kern(Option<u64>, KCall),
+    KBlock(Option<u64>, Vec<Item>),
+}
+
+#[derive(Debug, Clone)]
+pub enum KCall {
+    InsertVertex(u32, u32, u32, Option<f64>),
+    InsertVertices(u32, Vec<u32>, Vec<f64>),
+    Fan(u32, Vec<u32>),
+    FanConvex(u32, Vec<u32>),
+    Earclip(bool, u32, Vec<u32>),
+    Swap(u32),
+    CutOuter(u32, [u32; 3]),
+    CutInner(u32, [u32; 6]),
+    Collapse(u32),
+}
+
+#[derive(Debug, Clone)]
+pub enum Item {
+    C(Call),
+    K(KCall),
+}
+
+fn list_toks_u32(l: &[u32], s: &mut String) {
+    write!(s, " {}", l.len()).unwrap();
+    for x in l {
+        write!(s, " {x}").unwrap();
+    }
+}
+
+fn kcall_toks(k: &KCall, s: &mut String) {
+    match k {
+        KCall::InsertVertex(e, a, b, None) => write!(s, " 1 {e} {a} {b} 0").unwrap(),
+        KCall::InsertVertex(e, a, b, Some(t)) => write!(s, " 1 {e} {a} {b} 1 {}", ftok(*t)).unwrap(),
+        KCall::InsertVertices(e, nds, ts) => {
+            write!(s, " 2 {e}").unwrap();
+            list_toks_u32(nds, s);
+            write!(s, " {}", ts.len()).unwrap();
+            for t in ts {
+                write!(s, " {}", ftok(*t)).unwrap();
+            }
+        }
+        KCall::Fan(f, nds) => {
+            write!(s, " 3 {f}").unwrap();
+            list_toks_u32(nds, s);
+        }
+        KCall::FanConvex(f, nds) => {
+            write!(s, " 4 {f}").unwrap();
+            list_toks_u32(nds, s);
+        }
+        KCall::Earclip(ccw, f, nds) => {
+            write!(s, " 5 {} {f}", u8::from(*ccw)).unwrap();
+            list_toks_u32(nds, s);
+        }
+        KCall::Swap(e) => write!(s, " 6 {e}").unwrap(),
+        KCall::CutOuter(e, n) => write!(s, " 7 {e} {} {} {}", n[0], n[1], n[2]).unwrap(),
+        KCall::CutInner(e, n) => write!(s, " 8 {e} {} {} {} {} {} {}", n[0], n[1], n[2], n[3], n[4], n[5]).unwrap(),
+        KCall::Collapse(e) => write!(s, " 9 {e}").unwrap(),
+    }
+}
+
+/// `atomically_with_err`, except that a `retry()` -- which would block for ever in a
+/// single-threaded run -- is reported as `None` (a hang)
+fn with_watchdog<F>(f: F) -> Option<Result<(), u32>>
+where
+    F: Fn() -> honeycomb_core::stm::TransactionResult<(), u32>,
+{
+    match f() {
+        honeycomb_core::stm::TransactionResult::Validated(()) => Some(Ok(())),
+        honeycomb_core::stm::TransactionResult::Cancelled(c) => Some(Err(c)),
+        honeycomb_core::stm::TransactionResult::Abandoned => None,
+    }
+}
+fn atomically_or_hang<F>(f: F) -> honeycomb_core::stm::TransactionResult<(), u32>
+where
+    F: Fn(&mut honeycomb_core::stm::Transaction) -> TransactionClosureResult<(), u32>,
+{
+    use honeycomb_core::stm::{StmError, Transaction, TransactionControl};
+    Transaction::with_control_and_err(
+        |e| if e == StmError::Retry { TransactionControl::Abort } else { TransactionControl::Retry },
+        f,
+    )
+}
+
+/// one kernel call through `&mut Transaction`; `Err(code)` with the harness' error classes
+fn kcall_tx(
+    m: &CMap2<f64>,
+    t: &mut honeycomb_core::stm::Transaction,
+    k: &KCall,
+) -> TransactionClosureResult<(), u32> {
+    use honeycomb_core::stm::{TransactionError, abort};
+    use honeycomb_kernels::{cell_insertion, remeshing, triangulation};
+    // map a kernel result to our error classes, keeping STM control flow (retry / failure) intact
+    macro_rules! lift {
+        ($r:expr, $nulledge:expr, $badtopo:expr) => {
+            match $r {
+                Ok(_) => Ok(()),
+                Err(TransactionError::Abort(e)) => {
+                    let d = format!("{e:?}");
+                    let c = if d.starts_with("NullEdge") {
+                        $nulledge
+                    } else if d.starts_with("BadTopology") {
+                        $badtopo
+                    } else {
+                        err_code_dbg(&d)
+                    };
+                    abort(c)
+                }
+                Err(TransactionError::Stm(e)) => Err(TransactionError::Stm(e)),
+            }
+        };
+    }
+    match k {
+        KCall::InsertVertex(e, a, b, tt) => lift!(cell_insertion::insert_vertex_on_edge(m, t, *e, (*a, *b), *tt), 0, 0),
+        KCall::InsertVertices(e, nds, ts) => lift!(cell_insertion::insert_vertices_on_edge(m, t, *e, nds, ts), 0, 0),
+        KCall::Fan(f, nds) => lift!(triangulation::fan_cell(t, m, *f, nds), 0, 0),
+        KCall::FanConvex(f, nds) => lift!(triangulation::fan_convex_cell(t, m, *f, nds), 0, 0),
+        KCall::Earclip(true, f, nds) => lift!(triangulation::earclip_cell_countercw(t, m, *f, nds), 0, 0),
+        KCall::Earclip(false, f, nds) => lift!(triangulation::earclip_cell_cw(t, m, *f, nds), 0, 0),
+        KCall::Swap(e) => lift!(remeshing::swap_edge(t, m, *e), 121, 123),
+        KCall::CutOuter(e, n) => lift!(remeshing::cut_outer_edge(t, m, *e, *n), 0, 0),
+        KCall::CutInner(e, n) => lift!(remeshing::cut_inner_edge(t, m, *e, *n), 0, 0),
+        KCall::Collapse(e) => lift!(remeshing::collapse_edge(t, m, *e), 133, 134),
+    }
 }
 
 fn call_toks(c: &Call, s: &mut String) {
@@ -84,6 +208,25 @@ fn op_toks(o: &Op, s: &mut String) {
         }
         Op::Obs(b) => write!(s, " 7 {}", u8::from(*b)).unwrap(),
         Op::Query => s.push_str(" 8"),
+        Op::Kern(fa, k) => {
+            write!(s, " 9 {}", fa_tok(fa)).unwrap();
+            kcall_toks(k, s);
+        }
+        Op::KBlock(fa, items) => {
+            write!(s, " 10 {} {}", fa_tok(fa), items.len()).unwrap();
+            for it in items {
+                match it {
+                    Item::C(c) => {
+                        s.push_str(" 0");
+                        call_toks(c, s);
+                    }
+                    Item::K(k) => {
+                        s.push_str(" 1");
+                        kcall_toks(k, s);
+                    }
+                }
+            }
+        }
     }
 }
 
@@ -119,16 +262,25 @@ fn call_tx(
         }
         Call::WriteAttr(k, d, a) => match k {
             0 => {
-                m.write_attribute(t, d, Wt(a))?;
+                m.write_attribute(t, d, Wt(a as u32))?;
             }
             1 => {
-                m.write_attribute(t, d, Ea(a))?;
+                m.write_attribute(t, d, Ea(a as u32))?;
             }
             2 => {
-                m.write_attribute(t, d, Fa(a))?;
+                m.write_attribute(t, d, Fa(a as u32))?;
+            }
+            3 => {
+                m.write_attribute(t, d, Vb(a as u32))?;
+            }
+            4 => {
+                m.write_attribute(t, d, dec_va(a))?;
+            }
+            5 => {
+                m.write_attribute(t, d, dec_ea(a))?;
             }
             _ => {
-                m.write_attribute(t, d, Vb(a))?;
+                m.write_attribute(t, d, dec_fa(a))?;
             }
         },
         Call::RemoveAttr(k, d) => match k {
@@ -141,8 +293,17 @@ fn call_tx(
             2 => {
                 m.remove_attribute::<Fa>(t, d)?;
             }
-            _ => {
+            3 => {
                 m.remove_attribute::<Vb>(t, d)?;
+            }
+            4 => {
+                m.remove_attribute::<VertexAnchor>(t, d)?;
+            }
+            5 => {
+                m.remove_attribute::<EdgeAnchor>(t, d)?;
+            }
+            _ => {
+                m.remove_attribute::<FaceAnchor>(t, d)?;
             }
         },
         Call::RemoveDartTx(d) => {
@@ -210,6 +371,50 @@ fn exec(m: &mut CMap2<f64>, o: &Op) -> Res {
             }
         }
         Op::Obs(_) | Op::Query => Res::Ok(0),
+        Op::Kern(fa, k) => {
+            arm_fault(*fa);
+            let r = with_watchdog(|| {
+                atomically_or_hang(|t| {
+                    arm_fault(*fa);
+                    kcall_tx(m, t, k)
+                })
+            });
+            arm_fault(None);
+            match r {
+                Some(Ok(())) => Res::Ok(0),
+                Some(Err(c)) => Res::Err(c),
+                None => Res::Hang,
+            }
+        }
+        Op::KBlock(fa, items) => {
+            arm_fault(*fa);
+            let r = with_watchdog(|| {
+                atomically_or_hang(|t| {
+                    arm_fault(*fa);
+                    for it in items {
+                        match it {
+                            Item::C(c) => match call_tx(m, t, c) {
+                                Ok(()) => {}
+                                Err(honeycomb_core::stm::TransactionError::Abort(e)) => {
+                                    return honeycomb_core::stm::abort(sew_err_code(&e));
+                                }
+                                Err(honeycomb_core::stm::TransactionError::Stm(e)) => {
+                                    return Err(honeycomb_core::stm::TransactionError::Stm(e));
+                                }
+                            },
+                            Item::K(k) => kcall_tx(m, t, k)?,
+                        }
+                    }
+                    Ok(())
+                })
+            });
+            arm_fault(None);
+            match r {
+                Some(Ok(())) => Res::Ok(0),
+                Some(Err(c)) => Res::Err(c),
+                None => Res::Hang,
+            }
+        }
     }));
     arm_fault(None);
     r.unwrap_or(Res::Panic)
@@ -349,7 +554,7 @@ fn gen_call(rng: &mut Rng, v: &View, mask: u32, wild_pct: u64) -> Call {
             let ks: Vec<u32> = (0..N_KINDS).filter(|k| mask & (1 << k) != 0).collect();
             // identifiers >= n_darts are outside the contract of attribute writes (the storages
             // have one spare slot that add_free_dart would later expose)
-            Call::WriteAttr(*rng.pick(&ks), gen_dart(rng, v, t, wild).min(v.n - 1), rng.below(40) as u32)
+            Call::WriteAttr(*rng.pick(&ks), gen_dart(rng, v, t, wild).min(v.n - 1), rng.below(40))
         }
         92..=95 if mask != 0 => {
             let ks: Vec<u32> = (0..N_KINDS).filter(|k| mask & (1 << k) != 0).collect();
@@ -434,13 +639,264 @@ fn parse_call(t: &[&str], i: &mut usize) -> Call {
         8 => (Call::Unsew2(u(*i + 1)), 2),
         9 => (Call::WriteVertex(u(*i + 1), ftok_parse(t[*i + 2]), ftok_parse(t[*i + 3])), 4),
         10 => (Call::RemoveVertex(u(*i + 1)), 2),
-        11 => (Call::WriteAttr(u(*i + 1), u(*i + 2), u(*i + 3)), 4),
+        11 => (Call::WriteAttr(u(*i + 1), u(*i + 2), t[*i + 3].parse::<u64>().unwrap()), 4),
         12 => (Call::RemoveAttr(u(*i + 1), u(*i + 2)), 3),
         13 => (Call::RemoveDartTx(u(*i + 1)), 2),
         _ => panic!("bad call token"),
     };
     *i += len;
     call
+}
+
+fn parse_list(t: &[&str], i: &mut usize) -> Vec<u32> {
+    let m: usize = t[*i].parse().unwrap();
+    *i += 1;
+    let v = (0..m).map(|j| t[*i + j].parse::<i64>().unwrap() as u32).collect();
+    *i += m;
+    v
+}
+
+fn parse_kcall(t: &[&str], i: &mut usize) -> KCall {
+    let u = |j: usize| -> u32 { t[j].parse::<i64>().unwrap() as u32 };
+    let c = u(*i);
+    *i += 1;
+    match c {
+        1 => {
+            let (e, a, b) = (u(*i), u(*i + 1), u(*i + 2));
+            let has = t[*i + 3] != "0";
+            *i += 4;
+            let tt = if has {
+                *i += 1;
+                Some(ftok_parse(t[*i - 1]))
+            } else {
+                None
+            };
+            KCall::InsertVertex(e, a, b, tt)
+        }
+        2 => {
+            let e = u(*i);
+            *i += 1;
+            let nds = parse_list(t, i);
+            let nt: usize = t[*i].parse().unwrap();
+            *i += 1;
+            let ts = (0..nt).map(|j| ftok_parse(t[*i + j])).collect();
+            *i += nt;
+            KCall::InsertVertices(e, nds, ts)
+        }
+        3 | 4 => {
+            let f = u(*i);
+            *i += 1;
+            let nds = parse_list(t, i);
+            if c == 3 { KCall::Fan(f, nds) } else { KCall::FanConvex(f, nds) }
+        }
+        5 => {
+            let ccw = t[*i] != "0";
+            let f = u(*i + 1);
+            *i += 2;
+            KCall::Earclip(ccw, f, parse_list(t, i))
+        }
+        6 => {
+            *i += 1;
+            KCall::Swap(u(*i - 1))
+        }
+        7 => {
+            *i += 4;
+            KCall::CutOuter(u(*i - 4), [u(*i - 3), u(*i - 2), u(*i - 1)])
+        }
+        8 => {
+            *i += 7;
+            KCall::CutInner(u(*i - 7), [u(*i - 6), u(*i - 5), u(*i - 4), u(*i - 3), u(*i - 2), u(*i - 1)])
+        }
+        9 => {
+            *i += 1;
+            KCall::Collapse(u(*i - 1))
+        }
+        _ => panic!("bad kernel call token"),
+    }
+}
+
+// ------------------------------------------------------------------ kernel case generation
+
+fn shuffle(r: &mut Rng, v: &mut [u32]) {
+    for i in (1..v.len()).rev() {
+        let j = r.below(i as u64 + 1) as usize;
+        v.swap(i, j);
+    }
+}
+
+/// ops building an nx x ny grid of squares, each split in two triangles, embedded with jittered
+/// lattice points; returns (ops, number of darts used)
+fn prefix_trimesh(rng: &mut Rng, nx: u32, ny: u32) -> (Vec<Op>, u32) {
+    let mut ops = vec![Op::Obs(false)];
+    let d = |ix: u32, iy: u32, k: u32| 1 + 6 * (ix + nx * iy) + k;
+    let mut pts = vec![(0.0f64, 0.0f64); ((nx + 1) * (ny + 1)) as usize];
+    for j in 0..=ny {
+        for i in 0..=nx {
+            let interior = i > 0 && i < nx && j > 0 && j < ny;
+            let jx = if interior { (rng.below(5) as f64 - 2.0) * 0.0625 } else { 0.0 };
+            let jy = if interior { (rng.below(5) as f64 - 2.0) * 0.0625 } else { 0.0 };
+            pts[(i + (nx + 1) * j) as usize] = (f64::from(i) + jx, f64::from(j) + jy);
+        }
+    }
+    let pt = |i: u32, j: u32| pts[(i + (nx + 1) * j) as usize];
+    for iy in 0..ny {
+        for ix in 0..nx {
+            let (a1, a2, a3, b1, b2, b3) = (d(ix, iy, 0), d(ix, iy, 1), d(ix, iy, 2), d(ix, iy, 3), d(ix, iy, 4), d(ix, iy, 5));
+            for (x, y) in [(a1, a2), (a2, a3), (a3, a1), (b1, b2), (b2, b3), (b3, b1)] {
+                ops.push(Op::Force(None, Call::Link1(x, y)));
+            }
+            let (p0, p1, p2, p3) = (pt(ix, iy), pt(ix + 1, iy), pt(ix + 1, iy + 1), pt(ix, iy + 1));
+            for (dd, p) in [(a1, p0), (a2, p1), (a3, p3), (b1, p1), (b2, p2), (b3, p3)] {
+                ops.push(Op::Force(None, Call::WriteVertex(dd, p.0, p.1)));
+            }
+        }
+    }
+    for iy in 0..ny {
+        for ix in 0..nx {
+            ops.push(Op::Force(None, Call::Sew2(d(ix, iy, 1), d(ix, iy, 5))));
+            if ix + 1 < nx {
+                ops.push(Op::Force(None, Call::Sew2(d(ix, iy, 3), d(ix + 1, iy, 2))));
+            }
+            if iy + 1 < ny {
+                ops.push(Op::Force(None, Call::Sew2(d(ix, iy, 4), d(ix, iy + 1, 0))));
+            }
+        }
+    }
+    (ops, 6 * nx * ny)
+}
+
+/// a polygon of `k` sides as one face (darts 1..=k), counter-clockwise or clockwise
+fn prefix_polygon(rng: &mut Rng, k: u32, shape: u32, ccw: bool) -> (Vec<Op>, u32) {
+    let mut ops = vec![Op::Obs(false)];
+    let mut pts: Vec<(f64, f64)> = Vec::new();
+    for i in 0..k {
+        let ang = std::f64::consts::TAU * f64::from(i) / f64::from(k);
+        // shape 0: convex (circle with mild radius noise), 1: star-shaped with reflex vertices,
+        // 2: one deep reflex vertex at a random position, 3: comb-like
+        let r = match shape {
+            0 => 2.0 + 0.0625 * rng.below(3) as f64,
+            1 => if i % 2 == 0 { 2.0 } else { 0.75 + 0.125 * rng.below(3) as f64 },
+            2 => 2.0,
+            _ => if i % 3 == 1 { 0.5 } else { 2.0 + 0.25 * rng.below(2) as f64 },
+        };
+        // coordinates snapped to 1/64 so that areas are exact in binary64
+        let snap = |x: f64| (x * 64.0).round() / 64.0;
+        pts.push((snap(r * ang.cos()), snap(r * ang.sin())));
+    }
+    if shape == 2 {
+        let j = rng.below(u64::from(k)) as usize;
+        pts[j] = (pts[j].0 * 0.125, pts[j].1 * 0.125);
+    }
+    if !ccw {
+        pts.reverse();
+    }
+    for i in 0..k {
+        ops.push(Op::Force(None, Call::Link1(1 + i, 1 + (i + 1) % k)));
+        ops.push(Op::Force(None, Call::WriteVertex(1 + i, pts[i as usize].0, pts[i as usize].1)));
+    }
+    // embed the polygon in a larger mesh: triangles glued on some of its sides
+    let mut used = k;
+    if rng.chance(1, 2) {
+        for i in 0..k {
+            if !rng.chance(1, 3) {
+                continue;
+            }
+            let (p, q) = (pts[i as usize], pts[((i + 1) % k) as usize]);
+            let (dx, dy) = (q.0 - p.0, q.1 - p.1);
+            let s = if ccw { 1.0 } else { -1.0 };
+            let apex = ((p.0 + q.0) / 2.0 + s * dy * 0.5, (p.1 + q.1) / 2.0 - s * dx * 0.5);
+            let (t1, t2, t3) = (used + 1, used + 2, used + 3);
+            used += 3;
+            ops.push(Op::Force(None, Call::Link1(t1, t2)));
+            ops.push(Op::Force(None, Call::Link1(t2, t3)));
+            ops.push(Op::Force(None, Call::Link1(t3, t1)));
+            ops.push(Op::Force(None, Call::WriteVertex(t1, q.0, q.1)));
+            ops.push(Op::Force(None, Call::WriteVertex(t2, p.0, p.1)));
+            ops.push(Op::Force(None, Call::WriteVertex(t3, apex.0, apex.1)));
+            ops.push(Op::Force(None, Call::Sew2(1 + i, t1)));
+        }
+    }
+    (ops, used)
+}
+
+fn gen_kcall(r: &mut Rng, m: &CMap2<f64>, fresh: u32, poly: Option<(u32, u32)>, only: &str) -> KCall {
+    let v = view(m);
+    // darts that belong to the mesh (not the isolated spare ones)
+    let any = |r: &mut Rng| gen_dart(r, &v, |d| v.b[d as usize] != [0, 0, 0], false);
+    let inner = |r: &mut Rng| gen_dart(r, &v, |d| v.b[d as usize][2] != 0, false);
+    let interior_vertex = |d: u32| m.orbit(honeycomb_core::cmap::OrbitPolicy::Vertex, d).all(|x| m.beta::<2>(x) != 0);
+    let mut spare: Vec<u32> = (fresh..fresh + 8).collect();
+    if r.chance(1, 2) {
+        shuffle(r, &mut spare);
+    }
+    let bad = r.chance(1, 12);
+    if let (Some((f, k)), true) = (poly, only != "insert" && only != "remesh") {
+        let need = (2 * (k.max(3) - 3)) as usize;
+        let cnt = if bad { need + [1usize, 2, need][r.below(3) as usize] - if r.chance(1, 2) { need.min(2) } else { 0 } } else { need };
+        let mut nds: Vec<u32> = (fresh..fresh + cnt as u32).collect();
+        if r.chance(1, 3) {
+            shuffle(r, &mut nds);
+        }
+        let f = if r.chance(1, 4) { 1 + r.below(u64::from(k)) as u32 } else { f };
+        return match r.below(5) {
+            0 => KCall::Fan(f, nds),
+            1 => KCall::FanConvex(f, nds),
+            2 | 3 => KCall::Earclip(true, f, nds),
+            _ => KCall::Earclip(false, f, nds),
+        };
+    }
+    let pick = match only {
+        "insert" => 6 + r.below(6),
+        "remesh" => r.below(6),
+        _ => r.below(12),
+    };
+    match pick {
+        0 | 1 => KCall::Swap(if bad { r.below(u64::from(v.n)) as u32 } else if r.chance(4, 5) { inner(r) } else { any(r) }),
+        2 | 3 => {
+            let e = any(r);
+            let boundary = v.b[e as usize][2] == 0;
+            if boundary != bad { KCall::CutOuter(e, [spare[0], spare[1], spare[2]]) } else { KCall::CutInner(e, [spare[0], spare[1], spare[2], spare[3], spare[4], spare[5]]) }
+        }
+        4 | 5 => KCall::Collapse(if bad {
+            r.below(u64::from(v.n)) as u32
+        } else if r.chance(7, 10) {
+            gen_dart(r, &v, |d| v.b[d as usize][1] != 0 && interior_vertex(d) && interior_vertex(v.b[d as usize][1]), false)
+        } else {
+            any(r)
+        }),
+        6 | 7 => {
+            let tt = match r.below(5) {
+                0 => None,
+                1 if bad => Some([0.0, 1.0, -0.5, 1.5][r.below(4) as usize]),
+                _ => Some([0.25, 0.5, 0.75, 0.125, 0.3][r.below(5) as usize]),
+            };
+            let (a, b) = if bad { (any(r), spare[1]) } else { (spare[0], spare[1]) };
+            KCall::InsertVertex(any(r), a, if r.chance(1, 8) { 0 } else { b }, tt)
+        }
+        _ => {
+            let k = r.below(4) as usize;
+            let e = any(r);
+            let two = v.b[e as usize][2] != 0;
+            let mut nds: Vec<u32> = spare[..2 * k].to_vec();
+            if !two && r.chance(1, 2) {
+                for x in nds.iter_mut().skip(k) {
+                    *x = 0;
+                }
+            }
+            if bad && !nds.is_empty() {
+                let j = r.below(nds.len() as u64) as usize;
+                nds[j] = [0, any(r)][r.below(2) as usize];
+            }
+            let mut ts: Vec<f64> = (0..k).map(|j| (j as f64 + 1.0) / (k as f64 + 1.0)).collect();
+            if r.chance(1, 4) {
+                ts.reverse();
+            }
+            if bad && r.chance(1, 2) {
+                ts.push(0.5);
+            }
+            KCall::InsertVertices(e, nds, ts)
+        }
+    }
 }
 
 fn parse_ops(t: &[&str]) -> Vec<Op> {
@@ -478,6 +934,28 @@ fn parse_ops(t: &[&str]) -> Vec<Op> {
                 i += 1;
             }
             8 => v.push(Op::Query),
+            9 => {
+                let fa: i64 = t[i].parse().unwrap();
+                i += 1;
+                let k = parse_kcall(t, &mut i);
+                v.push(Op::Kern(if fa < 0 { None } else { Some(fa as u64) }, k));
+            }
+            10 => {
+                let fa: i64 = t[i].parse().unwrap();
+                let m: usize = t[i + 1].parse().unwrap();
+                i += 2;
+                let mut items = Vec::new();
+                for _ in 0..m {
+                    let tag = t[i];
+                    i += 1;
+                    if tag == "0" {
+                        items.push(Item::C(parse_call(t, &mut i)));
+                    } else {
+                        items.push(Item::K(parse_kcall(t, &mut i)));
+                    }
+                }
+                v.push(Op::KBlock(if fa < 0 { None } else { Some(fa as u64) }, items));
+            }
             _ => panic!("bad op token"),
         }
     }
@@ -641,7 +1119,10 @@ fn main() {
     let fault: u64 = get("--fault", "0").parse().unwrap();
     let tag = get("--tag", "r");
     let query_pct: u64 = get("--query", "0").parse().unwrap();
-    quiet_panics();
+    let only = get("--only", "all");
+    if std::env::var("HC_LOUD").is_err() {
+        quiet_panics();
+    }
     let mut out = Out {
         cases: std::io::BufWriter::new(std::fs::File::create(format!("{outdir}/cases.txt")).unwrap()),
         obs: std::io::BufWriter::new(std::fs::File::create(format!("{outdir}/impl.txt")).unwrap()),
@@ -837,7 +1318,7 @@ fn main() {
                                     1 => m.edge_id(d),
                                     _ => m.face_id(d),
                                 };
-                                Op::Force(None, Call::WriteAttr(k, id, 1 + r2.below(60) as u32))
+                                Op::Force(None, Call::WriteAttr(k, id, 1 + r2.below(60)))
                             }
                             7 => Op::Force(None, Call::Unsew1(gen_dart(&mut r2, &v, |d| v.b[d as usize][1] != 0, false))),
                             _ => gen_op(&mut r2, m, mask, 0, 0),
@@ -845,6 +1326,161 @@ fn main() {
                     },
                     &mut out,
                 );
+            }
+        }
+        "kern" | "kcompose" | "kfault" => {
+            let mut rng = Rng::new(seed);
+            for i in 0..ncases {
+                let polygon = match only.as_str() {
+                    "tri" => true,
+                    "remesh" => false,
+                    "insert" => rng.chance(1, 4),
+                    _ => rng.chance(2, 5),
+                };
+                let user = if mode == "kfault" { [1u32, 3, 9, 11, 15][rng.below(5) as usize] } else if rng.chance(1, 3) { rng.below(16) as u32 } else { 0 };
+                let anchors = if !polygon && rng.chance(1, 2) { 0x70 } else { 0 };
+                let mask = user | anchors;
+                let (mut prefix, used, poly) = if polygon {
+                    let k = 3 + rng.below(8) as u32;
+                    let shape = rng.below(4) as u32;
+                    let ccw = rng.chance(3, 4);
+                    let (p, u) = prefix_polygon(&mut rng, k, shape, ccw);
+                    (p, u, Some((1u32, k)))
+                } else {
+                    let (nx, ny) = (1 + rng.below(4) as u32, 1 + rng.below(4) as u32);
+                    let (p, u) = prefix_trimesh(&mut rng, nx, ny);
+                    (p, u, None)
+                };
+                let n0 = used + rng.below(2) as u32;
+                // replay the prefix on a scratch map to learn ids for the anchors
+                let mut m = build2(n0 as usize, mask);
+                for o in &prefix {
+                    exec(&mut m, o);
+                }
+                if anchors != 0 && poly.is_none() {
+                    for vtx in m.iter_vertices().collect::<Vec<_>>() {
+                        let boundary = m.orbit(honeycomb_core::cmap::OrbitPolicy::Vertex, vtx).any(|d| m.beta::<2>(d) == 0);
+                        let a = if boundary { if rng.chance(1, 5) { u64::from(vtx) } else { (1u64 << 32) + 1 } } else { 2u64 << 32 };
+                        prefix.push(Op::Force(None, Call::WriteAttr(4, vtx, a)));
+                    }
+                    for e in m.iter_edges().collect::<Vec<_>>() {
+                        let a = if m.beta::<2>(e) == 0 { (1u64 << 32) + 1 } else { 2u64 << 32 };
+                        prefix.push(Op::Force(None, Call::WriteAttr(5, e, a)));
+                    }
+                    for f in m.iter_faces().collect::<Vec<_>>() {
+                        prefix.push(Op::Force(None, Call::WriteAttr(6, f, 2u64 << 32)));
+                    }
+                }
+                if user != 0 {
+                    // user attribute values on every cell id
+                    for vtx in m.iter_vertices().collect::<Vec<_>>() {
+                        for k in [0u32, 3] {
+                            if mask & (1 << k) != 0 {
+                                prefix.push(Op::Force(None, Call::WriteAttr(k, vtx, 1 + rng.below(50))));
+                            }
+                        }
+                    }
+                    if mask & 2 != 0 {
+                        for e in m.iter_edges().collect::<Vec<_>>() {
+                            prefix.push(Op::Force(None, Call::WriteAttr(1, e, 1 + rng.below(50))));
+                        }
+                    }
+                    if mask & 4 != 0 {
+                        for f in m.iter_faces().collect::<Vec<_>>() {
+                            prefix.push(Op::Force(None, Call::WriteAttr(2, f, 1 + rng.below(50))));
+                        }
+                    }
+                }
+                if only == "insert" && rng.chance(1, 3) {
+                    // open some faces: 1-free darts, dangling darts
+                    for _ in 0..1 + rng.below(3) {
+                        let d = 1 + rng.below(u64::from(used)) as u32;
+                        prefix.push(Op::Force(None, Call::Unsew1(d)));
+                    }
+                }
+                if rng.chance(1, 10) {
+                    // an undefined vertex somewhere (error clauses)
+                    let d = 1 + rng.below(u64::from(used)) as u32;
+                    prefix.push(Op::Force(None, Call::RemoveVertex(m.vertex_id(d))));
+                }
+                prefix.push(Op::Obs(true));
+                let mut m = build2(n0 as usize, mask);
+                for o in &prefix {
+                    exec(&mut m, o);
+                }
+                let nops = if mode == "kern" { 1 + rng.below(maxops as u64) as usize } else { 1 + rng.below(3) as usize };
+                let mut r2 = Rng::new(rng.next());
+                // generate the tail against the evolving scratch map
+                let mut tail: Vec<Op> = Vec::new();
+                let mut items: Vec<Item> = Vec::new();
+                for _ in 0..nops {
+                    let fresh = m.n_darts() as u32;
+                    let alloc = Op::AddDarts(16);
+                    exec(&mut m, &alloc);
+                    tail.push(alloc);
+                    let pl = if r2.chance(9, 10) { poly } else { None };
+                    let k = gen_kcall(&mut r2, &m, fresh, pl, &only);
+                    let o = if mode == "kern" && r2.chance(1, 6) {
+                        Op::KBlock(None, vec![Item::K(k.clone())])
+                    } else {
+                        Op::Kern(None, k.clone())
+                    };
+                    exec(&mut m, &o);
+                    tail.push(o);
+                    items.push(Item::K(k));
+                    if mode != "kern" && r2.chance(1, 2) {
+                        let v = view(&m);
+                        let c = gen_sewish(&mut r2, &v);
+                        let o = Op::Force(None, c.clone());
+                        exec(&mut m, &o);
+                        tail.push(o);
+                        items.push(Item::C(c));
+                    }
+                }
+                match mode.as_str() {
+                    "kern" => {
+                        let mut it = prefix.into_iter().chain(tail);
+                        run_case(&format!("{tag}{i}"), mask, n0, &mut |_, _| it.next(), &mut out);
+                    }
+                    "kcompose" => {
+                        // the spare darts are allocated up front in both variants
+                        let allocs: Vec<Op> = tail.iter().filter(|o| matches!(o, Op::AddDarts(_))).cloned().collect();
+                        let seq: Vec<Op> = tail.iter().filter(|o| !matches!(o, Op::AddDarts(_))).cloned().collect();
+                        let mut pre = prefix.clone();
+                        let obs = pre.pop().unwrap();
+                        pre.extend(allocs);
+                        pre.push(obs);
+                        let mut it = pre.clone().into_iter().chain(seq);
+                        run_case(&format!("{tag}{i}b"), mask, n0, &mut |_, _| it.next(), &mut out);
+                        let mut it = pre.into_iter().chain(std::iter::once(Op::KBlock(None, items)));
+                        run_case(&format!("{tag}{i}a"), mask, n0, &mut |_, _| it.next(), &mut out);
+                    }
+                    _ => {
+                        // fault enumeration on the last kernel call
+                        let last = tail.pop().unwrap();
+                        let last_k = match &last {
+                            Op::Kern(_, k) => Op::Kern(None, k.clone()),
+                            o => o.clone(),
+                        };
+                        let mut sc = build2(n0 as usize, mask);
+                        for o in prefix.iter().chain(tail.iter()) {
+                            exec(&mut sc, o);
+                        }
+                        reset_last();
+                        exec(&mut sc, &last_k);
+                        let calls = last_law_calls().min(16);
+                        for k in std::iter::once(None).chain((0..calls).map(Some)) {
+                            let fin = match &last_k {
+                                Op::Kern(_, kc) => Op::Kern(k, kc.clone()),
+                                Op::Force(_, c) => Op::Force(k, c.clone()),
+                                o => o.clone(),
+                            };
+                            let mut it = prefix.clone().into_iter().chain(tail.clone()).chain(std::iter::once(fin));
+                            let kk = k.map_or("n".to_string(), |x| x.to_string());
+                            run_case(&format!("{tag}{i}k{kk}"), mask, n0, &mut |_, _| it.next(), &mut out);
+                        }
+                    }
+                }
             }
         }
         "exhq" => {
